@@ -48,8 +48,10 @@ type Spec struct {
 	FK *string // "pkg.v1.entity"
 	TK *string
 
-	EOpts []string // enum option names as declared
-	EPre  *string  // declared prefix
+	EOpts  []string // enum option names as declared
+	EODesc []string // descriptions of the options, aligned with EOpts ("" = none); nil = no option has one
+	EDesc  *string  // description of the enum itself
+	EPre   *string  // declared prefix
 	In    []string
 	NIn   []string
 
@@ -225,6 +227,8 @@ func (s *Spec) Encode() string {
 		"fk=" + optS(s.FK),
 		"tk=" + optS(s.TK),
 		"eopts=" + listS(s.EOpts),
+		"eodesc=" + listS(s.EODesc),
+		"edesc=" + optS(s.EDesc),
 		"epre=" + optS(s.EPre),
 		"in=" + listS(s.In),
 		"nin=" + listS(s.NIn),
@@ -393,6 +397,15 @@ func DecodeSpec(toks []string) (*Spec, error) {
 	}
 	if s.EOpts, ok = lst("eopts"); !ok {
 		return nil, fail("eopts")
+	}
+	if s.EODesc, ok = lst("eodesc"); !ok {
+		return nil, fail("eodesc")
+	}
+	if s.EODesc != nil && len(s.EODesc) != len(s.EOpts) {
+		return nil, fail("eodesc")
+	}
+	if s.EDesc, ok = str("edesc"); !ok {
+		return nil, fail("edesc")
 	}
 	if s.EPre, ok = str("epre"); !ok {
 		return nil, fail("epre")
@@ -650,10 +663,23 @@ func (s *Spec) EnumText() []string {
 		return nil
 	}
 	out := []string{"enum " + s.enumTypeName() + " {"}
+	if s.EDesc != nil {
+		for _, l := range strings.Split(*s.EDesc, "\n") {
+			out = append(out, "  | "+l)
+		}
+	}
 	if s.EPre != nil {
 		out = append(out, "  prefix = "+j5sString(*s.EPre))
 	}
-	for _, o := range s.EOpts {
+	for i, o := range s.EOpts {
+		if s.EODesc != nil && s.EODesc[i] != "" {
+			out = append(out, "  option "+o+" {")
+			for _, l := range strings.Split(s.EODesc[i], "\n") {
+				out = append(out, "    | "+l)
+			}
+			out = append(out, "  }")
+			continue
+		}
 		out = append(out, "  option "+o)
 	}
 	out = append(out, "}")
